@@ -250,7 +250,7 @@ def real_internal(values, mask, conn8):
 # ---------------------------------------------------------------- enumeration
 ENUM_PLAN = {
     "quick": [(["0", "1"], 9), (["0", "1", "2"], 6), (["0", "1", "m"], 6), (["0", "1", "2", "m"], 5)],
-    "thorough": [(["0", "1"], 12), (["0", "1", "2"], 10), (["0", "1", "m"], 10), (["0", "1", "2", "m"], 8)],
+    "thorough": [(["0", "1"], 12), (["0", "1", "2"], 11), (["0", "1", "m"], 11), (["0", "1", "2", "m"], 8)],
 }
 
 
